@@ -32,8 +32,8 @@ import numpy as np
 
 from .. import exprs as E
 from .. import gen, pymodel
-from .common import (multiset_close, compare_errors, fd_jacobian, fl, lean_assemble, mpf, mpf_s, net_oracle, spec_oracle, sym_vs_lean,
-                     vec_close)
+from .common import (NAMED_TRAPS, multiset_close, compare_errors, fd_jacobian, fl, lean_assemble, mpf, mpf_s, net_oracle, printer_check,
+                     spec_oracle, sym_vs_lean, vec_close, wide_tags)
 
 PROP = "C12"
 LEAN = {"module": "Pygom.Props.C12",
@@ -41,14 +41,19 @@ LEAN = {"module": "Pygom.Props.C12",
                      "Pygom.C12.birth_origin_eq_destination", "Pygom.C12.splitDecl_join", "Pygom.C12.assemble_congr",
                      "Pygom.C12.route_member_eq", "Pygom.C12.route_legacy_T", "Pygom.C12.route_legacy_BD", "Pygom.C12.route_bare",
                      "Pygom.C12.staged_build"]}
-BUDGET = {"quick": {"cases": 140}, "thorough": {"cases": 2500}}
+BUDGET = {"quick": {"cases": 140, "wide": 60}, "thorough": {"cases": 2500, "wide": 1000}}
 RULE = ("random process sets (as C01) entered through three independent route assignments / orders / declaration styles / container "
         "forms (list, tuple, bare object, *_list assignment), the three instances built in an interleaved schedule with evaluations "
         "in between (every intermediate model judged against the spec read so far); non-trivial = the specs differ and the ODE is "
-        "not identically zero")
+        "not identically zero.  WIDE input space (tag `wide`, a fixed number of cases per tier, see C01): trap names, compound "
+        "magnitudes (1 - p, n0 + n1, 2*k, k/2, -k, p*(1 - q)) and magnitudes / derived parameters containing a state, numeric constants "
+        "and ** powers; every variant hands its strings to pygom in its own SYNTAX - fully parenthesised, or as a user writes them "
+        "(natural precedence, no redundant parentheses, blanks, 1e-3 / 1/3 literals; printer checked against Python's grammar) - "
+        "which is one more equivalent way of specifying the same model; 8-12 states / parameters / events in some cases")
 ASSUMPTIONS = ["expression identity decided by exact evaluation at 2 random rational points (50 digits)",
                "input forms the unchanged pygom rejects with an error (pymodel.ACCEPTED_FORMS lists the accepted ones) are tagged, not judged"]
-TRUSTED = ["harness generator / printer / interpreter", "Lean driver JSON codec"]
+TRUSTED = ["harness generator / printer / interpreter", "Lean driver JSON codec",
+           "natural-precedence printer exprs.user_str (checked on every case it is used for against Python's own parser)"]
 
 THEN_OF = {"event": "add_event", "transition": "add_transition", "birth_death": "add_birth_death", "ode": "add_ode"}
 
@@ -121,28 +126,63 @@ def schedule(rng, specs):
     return sched
 
 
-def make_cases(rng, tier, budget, n=None):
+def case_from_abstract(r, ab, meta0, wide=False):
+    """one process set `ab` entered three times (variants A, B, F) + forms + interleaved schedule; `wide`: a syntax per variant"""
+    ra, rb, rf = random.Random(r.getrandbits(64)), random.Random(r.getrandbits(64)), random.Random(r.getrandbits(64))
+    as_ode = 0.25 if r.random() < 0.3 else 0.0
+    specA, metaA = gen.make_spec(ra, ab, gen.ALL_ROUTES, shuffle=False, member_eq_prob=0.3)
+    specB, metaB = gen.make_spec(rb, ab, gen.ALL_ROUTES, shuffle=True, as_ode_prob=as_ode, member_eq_prob=0.3)
+    specF, metaF = gen.make_spec(rf, ab, ("event", "event_eq", "event_bare", "legacy"), shuffle=True,
+                                 as_ode_prob=0.3 if rf.random() < 0.3 else 0.0, member_eq_prob=0.2)
+    specF = one_per_keyword(rf, specF)
+    if wide:
+        # the syntax of the strings is one more "equivalent way of specifying": drawn per variant (None = fully parenthesised)
+        for sp_ in (specA, specB, specF):
+            if r.random() < 0.8:
+                sp_["syntax"] = gen.rand_syntax(r)
+    specs = {"A": specA, "B": specB, "F": specF}
+    pts = [gen.rand_point(r, meta0) for _ in range(2)]
+    return ({"A": specA, "B": specB, "F": specF, "routesA": metaA["routes"], "routesB": metaB["routes"],
+                  "routesF": metaF["routes"] + ["one_per_keyword"],
+                  "formsA": rand_forms(ra, specA, 0.3), "formsB": rand_forms(rb, specB, 0.3), "formsF": rand_forms(rf, specF, 0.7),
+                  "schedule": schedule(r, specs),
+                  "states": ab["states"], "params": ab["params"],
+                  "abstract": {"states": ab["states"], "params": ab["params"], "procs": ab["procs"], "odes": ab["odes"], "derived": ab["derived"]},
+                  "points": [{k: str(v) for k, v in p.items()} for p in pts]})
+
+
+
+def wide_options(r, i):
+    w = {"names": r.random() < 0.7, "mags": r.random() < 0.85, "state_mags": 0.3, "derived_states": 0.5 if r.random() < 0.5 else 0.0,
+         "consts": r.random() < 0.6}
+    if i % 15 in (4, 9, 14):
+        w["size"] = {4: "many_states", 9: "many_params", 14: "many_events"}[i % 15]
+    return w
+
+
+def wide_cases(rng, n):
+    return make_cases(rng, None, None, n=n, wide=True)
+
+
+def make_cases(rng, tier, budget, n=None, wide=False):
     cases = []
     for i in range(n or budget["cases"]):
         r = random.Random(rng.getrandbits(64))
-        _, meta0 = gen.gen_model(r, min_events=1)
+        w = wide_options(r, i) if wide else None
+        _, meta0 = gen.gen_model(r, min_events=1, wide=w)
         ab = meta0["abstract"]
-        ra, rb, rf = random.Random(r.getrandbits(64)), random.Random(r.getrandbits(64)), random.Random(r.getrandbits(64))
-        as_ode = 0.25 if r.random() < 0.3 else 0.0
-        specA, metaA = gen.make_spec(ra, ab, gen.ALL_ROUTES, shuffle=False, member_eq_prob=0.3)
-        specB, metaB = gen.make_spec(rb, ab, gen.ALL_ROUTES, shuffle=True, as_ode_prob=as_ode, member_eq_prob=0.3)
-        specF, metaF = gen.make_spec(rf, ab, ("event", "event_eq", "event_bare", "legacy"), shuffle=True,
-                                     as_ode_prob=0.3 if rf.random() < 0.3 else 0.0, member_eq_prob=0.2)
-        specF = one_per_keyword(rf, specF)
-        specs = {"A": specA, "B": specB, "F": specF}
-        pts = [gen.rand_point(r, meta0) for _ in range(2)]
-        cases.append({"A": specA, "B": specB, "F": specF, "routesA": metaA["routes"], "routesB": metaB["routes"],
-                      "routesF": metaF["routes"] + ["one_per_keyword"],
-                      "formsA": rand_forms(ra, specA, 0.3), "formsB": rand_forms(rb, specB, 0.3), "formsF": rand_forms(rf, specF, 0.7),
-                      "schedule": schedule(r, specs),
-                      "states": ab["states"], "params": ab["params"],
-                      "abstract": {"states": ab["states"], "params": ab["params"], "procs": ab["procs"], "odes": ab["odes"], "derived": ab["derived"]},
-                      "points": [{k: str(v) for k, v in p.items()} for p in pts]})
+        cases.append(case_from_abstract(r, ab, meta0, wide))
+        if wide:
+            cases[-1]["wide"] = w
+    # the wide cases are drawn AFTER the classic ones (whose random stream is what it was) and spread over the run
+    if not wide and budget is not None and budget.get("wide"):
+        n_main = n or budget["cases"]
+        wide_list = wide_cases(random.Random(rng.getrandbits(64)), budget["wide"] * (n_main // budget["cases"]))
+    else:
+        wide_list = []
+    step = max(1, len(cases) // max(1, len(wide_list)))
+    for k, c in enumerate(wide_list):
+        cases.insert(min(len(cases), k * (step + 1)), c)
     return cases
 
 
@@ -227,7 +267,7 @@ class Variant(object):
         tf = self.forms.get("then") or []
         fm = tf[self.applied] if self.applied < len(tf) else "add"
         try:
-            pymodel.apply_then(self.model, o, fm)
+            pymodel.apply_then(self.model, o, fm, sx=self.spec.get("syntax"))
             self.tags.append("then:%s=%s" % (o["op"], fm))
             if ("then", o["op"], fm) not in pymodel.ACCEPTED_FORMS:
                 self.tags.append("form-newly-accepted:then.%s=%s" % (o["op"], fm))
@@ -235,7 +275,7 @@ class Variant(object):
             if ("then", o["op"], fm) not in pymodel.ACCEPTED_FORMS:
                 self.tags.append("form-not-accepted:then.%s=%s:%s" % (o["op"], fm, type(exc).__name__))
                 try:
-                    pymodel.apply_then(self.model, o, "add")
+                    pymodel.apply_then(self.model, o, "add", sx=self.spec.get("syntax"))
                 except Exception as exc2:
                     exc = exc2
                 else:
@@ -321,6 +361,13 @@ def run_case(case):
     pts = [{k: Fraction(val) for k, val in p.items()} for p in case["points"]]
     sched = case.get("schedule") or ([["build", v] for v in names])
     env0 = pts[0]
+    if case.get("wide") is not None:
+        ab_ = case["abstract"]
+        tags += wide_tags(case["A"], {"states": ab_["states"], "params": ab_["params"], "derived": [d_[0] for d_ in ab_["derived"]], "procs": ab_["procs"]},
+                          case["wide"], NAMED_TRAPS)
+        tags += ["syntax:%s=%s" % (v, "natural" if case[v].get("syntax") else "parenthesised") for v in names]
+        for v in names:
+            printer_check(case[v], env0, mism, tags, who=v + ":")
     for act, v in sched:
         V = Vs[v]
         if act == "build":
